@@ -220,7 +220,8 @@ pub fn run(out: &mut Out, thorough: bool, seed: u64) {
             out.count("ctor-pair");
         };
         let enc2 = |r: Result<(prio::vdaf::prio3::Prio3PublicShare<32>, Vec<prio::vdaf::prio3::Prio3InputShare<Field128, 32>>), prio::vdaf::VdafError>| r.map(|(p, i)| (p.get_encoded().unwrap(), i.iter().map(|s| s.get_encoded().unwrap()).collect::<Vec<_>>())).map_err(|_| ());
-        for (a, b, c) in [(8usize, 3usize, 2usize), (5, 1, 4), (6, 6, 3), (9, 2, 5)] {
+        // also chunk lengths at and above the vector length, and chunk length 1
+        for (a, b, c) in [(8usize, 3usize, 2usize), (5, 1, 4), (6, 6, 3), (9, 2, 5), (3, 2, 5), (4, 1, 4), (3, 3, 7), (5, 2, 1), (2, 1, 9)] {
             let random = rng.bytes(2 * 2 * 32);
             // multihot: (num_buckets, max_weight, chunk_length)
             let s = Prio3::new_multihot_count_vec(2, a, b, c).unwrap();
